@@ -389,7 +389,7 @@ def gen_expr(draw, sc, t, depth, allow_call=True, pure_only=False):
         if mode == 0:  # possibly out of range on purpose
             ie = draw(gen_expr(sc, "int", d, False, False))
         else:
-            ie = lit("int", draw(st.integers(0, max(0, n - 1))))
+            ie = lit("long" if mode >= 8 else "int", draw(st.integers(0, max(0, n - 1))))
             ints = sc.visible("int")
             if ints and mode <= 3:
                 # i % n is in range for non-negative i; generator keeps loop counters non-negative
@@ -576,7 +576,8 @@ def gen_stmt(draw, sc, depth, ret_t, in_loop, allow_echo):
         v = draw(st.sampled_from(vs))
         n = v.get("len") or 1
         mode = draw(st.integers(0, 9))
-        ie = draw(gen_expr(sc, "int", 1, False, False)) if mode == 0 else lit("int", draw(st.integers(0, max(0, n - 1))))
+        # indices of type long are legal in reads and in stores (modes 1-3: a long literal; seeded change C07-a4)
+        ie = draw(gen_expr(sc, "int", 1, False, False)) if mode == 0 else lit("long" if mode <= 3 else "int", draw(st.integers(0, max(0, n - 1))))
         return {"k": "aset", "name": v["name"], "i": _no_neg_const(ie), "e": draw(gen_expr(sc, elem_type(v["t"]), 2))}
     if c == "echo":
         t = draw(st.sampled_from(getattr(sc, "decl_types", None) or (SCALARS + SCALARS + ARRAYS)))
